@@ -5,7 +5,7 @@ import re
 import time
 
 VERIF = os.path.dirname(os.path.dirname(os.path.abspath(__file__)))
-EVIDENCE_DIR = os.path.join(VERIF, 'evidence')
+EVIDENCE_DIR = os.environ.get('EMD_VERIF_EVIDENCE') or os.path.join(VERIF, 'evidence')   # env only for experiments
 KNOWN_FILE = os.path.join(VERIF, 'known_findings.json')
 
 PASS, VIOLATION, UNDECIDED, NOTE = 'PASS', 'VIOLATION', 'UNDECIDED', 'NOTE'
